@@ -10,5 +10,7 @@ git apply "$PATCH"
 cd /verif
 out=$(./check "$PROP" quick --no-evidence "$@" 2>&1); rc=$?
 git -C /repo checkout -- . ; git -C /repo clean -fdq -- harper-ls harper-core harper-stats harper-wasm harper-comments 2>/dev/null
+# never leave a simulator built from the changed tree behind
+./check build >/dev/null 2>&1
 echo "$out" | grep -E "^(VIOLATION|  oracle|KNOWN|HARNESS|DONE)" | cut -c1-260
 echo "exit=$rc"
